@@ -133,8 +133,8 @@ def rule_r4(facts, rep, rid="C19-R4"):
     if not calls:
         rep.violation(rid, f.def_ + "|propagates-write-errors", "write_store_at_path does not call write_file", f.loc)
     else:
-        ps = c.parents(calls[0])
-        tried = any(p.get("k") == "match" and p.get("src") == "TryDesugar" for p in ps) or any(p.get("k") == "ret" for p in ps)
+        from .common import result_propagated
+        tried = all(result_propagated(c, f, x) for x in calls)
         if tried:
             rep.ok(rid, f.def_ + "|propagates-write-errors", "write_file(..)? ", loc(f, calls[0]))
         else:
